@@ -1837,26 +1837,8 @@ Proof.
   - destruct (Nat.eqb _ _); [|discriminate D6]. rewrite D6. exact Sb.
 Qed.
 
-(* every `func` keyword at which the statement loop arrives is followed by an identifier *)
-Fixpoint loop_named (fuel : nat) (terms : bool) (s : pst) : bool :=
-  match fuel with
-  | 0 => true
-  | S f =>
-    match ct s with
-    | T_EOF => true
-    | T_FUNC => (match ct (adv s) with T_IDENT => true | _ => false end) &&
-                match parse_func B f s with Ok _ s1 => loop_named f terms s1 | _ => true end
-    | T_ON => match parse_event_handler B f s with Ok _ s1 => loop_named f terms s1 | _ => true end
-    | _ => match parse_statement B f s with
-           | Ok None s1 => loop_named f terms s1
-           | Ok (Some st) s1 => if terms then true else loop_named f (always_terms st) s1
-           | _ => true
-           end
-    end
-  end.
-
 Lemma program_loop_sim : forall fuel acc terms s p s', program_loop B fuel acc terms s = Ok p s' ->
-  serrs s' = [] -> WF s -> loop_named fuel terms s = true ->
+  serrs s' = [] -> WF s -> loop_named B fuel terms s = true ->
   sused s' = [] /\ fns s' = fns s /\
   exists l, p = rev acc ++ l /\ stmts_sok B (fns s) l /\ scope_stmts (tabs_of B (fns s)) l (abs s) = Some (abs s').
 Proof.
@@ -1870,8 +1852,8 @@ Proof.
                      else program_loop B f (st :: acc) (always_terms st) s1
         end) = Ok p s' ->
         match parse_statement B f s with
-        | Ok None s1 => loop_named f terms s1
-        | Ok (Some st) s1 => if terms then true else loop_named f (always_terms st) s1
+        | Ok None s1 => loop_named B f terms s1
+        | Ok (Some st) s1 => if terms then true else loop_named B f (always_terms st) s1
         | _ => true
         end = true -> GOAL).
   { intros H1 L1. destruct (parse_statement B f s) as [r s1| |] eqn:P; try discriminate H1.
@@ -1895,7 +1877,7 @@ Proof.
                   | Some st => stmt_sok B (fns s) st /\ scope_stmt (tabs_of B (fns s)) st (abs s) = Some (abs s1)
                   | None => abs s1 = abs s
                   end) ->
-               loop_named f terms s1 = true ->
+               loop_named B f terms s1 = true ->
                program_loop B f (match r with Some st => st :: acc | None => acc end) terms s1 = Ok p s' -> GOAL).
   { intros r s1 S1 L1 H1. destruct (program_loop_sn B _ _ _ _ _ _ H1 Q) as [Q1 _]. destruct (S1 Q1) as (F1 & U1 & Fn1 & M).
     assert (W1 : WF s1) by (split; [eapply scs_of_frames; [exact F1|apply W]|exact U1]).
@@ -1971,27 +1953,6 @@ End ProgramSim.
 
 (* ================================================================ *)
 (** * Accept implies the static expression rules and the scoping rules *)
-
-Definition toks_of (raw : list (token * position)) : list token :=
-  map fst (filter (fun tp => negb (is_illegal (fst tp))) raw).
-(* the parser as newParser creates it: the builtin functions *)
-Definition init_state (B : benv) (toks : list token) : pst :=
-  {| cs := state_at tEOF toks []; scs := [];
-     fns := map (fun nb => (fst nb, {| fi_nil := snd nb; fi_ret := true;
-                                      fi_arity := match lookup_arity (fst nb) (b_arity B) with Some a => a | None => None end;
-                                      fi_params := [] |})) (b_funcs B);
-     bodies := []; hds := [] |}.
-(* the function table after the signature pre-pass (parseFuncSignatures): builtins and one entry per `func` signature *)
-Definition fn_table (B : benv) (raw : list (token * position)) : list (str * finfo) :=
-  match signatures B tEOF (toks_of raw) (init_state B (toks_of raw)) with Ok _ s1 => fns s1 | _ => [] end.
-Definition globals_scope (B : benv) : scope :=
-  {| sc_vars := map (fun n => {| v_name := n; v_used := true; v_pos := 0 |}) (b_globals B);
-     sc_ret := false; sc_retval := false; sc_loop := false |}.
-Definition main_state (B : benv) (raw : list (token * position)) : pst :=
-  {| cs := state_at tEOF (toks_of raw) []; scs := [globals_scope B]; fns := fn_table B raw; bodies := []; hds := [] |}.
-(* the statement loop of this parse never arrives at a `func` keyword that is not followed by an identifier *)
-Definition funcs_named (B : benv) (raw : list (token * position)) : bool :=
-  loop_named B (fuel_of (toks_of raw)) false (main_state B raw).
 
 Lemma accept_inv B raw eof p : parse B raw eof = Accept p ->
   exists s3, program_loop B (fuel_of (toks_of raw)) [] false (main_state B raw) = Ok p s3 /\ serrs (validate_scope s3) = [].
